@@ -191,15 +191,15 @@ every converter fuel `≥ dbFuel` the converter as written returns an object `co
 configuration and fuel `n ≥ 5`, the translation whose proof phase is `exec_proof` as written on `conv` is `translateFull` on
 the specification's database, goal, label list and steps. -/
 theorem translation_full_text_is_the_model (mdb : MDb) (target : String)
-    (h : MM.ConvSpec.FragmentShape mdb target = true) :
+    (h : MM.ConvSpec.FragmentShape mdb target = true) (hs : MM.ConvSpec.sugarFree mdb = true) :
     ∃ sp, MM.ConvSpec.dbOfMDb mdb target = some sp ∧ sp.db.wf = true ∧
       ∀ fuel, ConvTie.dbFuel mdb ≤ fuel → ∃ conv,
         Gen.MMConv.MetamathConverter_init sp.names.consts.idxOf fuel default mdb = .ok conv ∧
         ∀ (cfg : Cfg) (n : Nat), 5 ≤ n →
           translateFullText sp.names.consts.idxOf fuel conv sp target cfg n =
             translateFull cfg n sp.db sp.goal sp.labels sp.steps := by
-  obtain ⟨sp, hsp, _, hwf⟩ := spec_coherent_of_shape mdb target h
-  obtain ⟨sp', hsp', htie⟩ := translation_text_is_the_model_of_shape mdb target h
+  obtain ⟨sp, hsp, _, hwf⟩ := spec_coherent_of_shape mdb target h hs
+  obtain ⟨sp', hsp', htie⟩ := translation_text_is_the_model_of_shape mdb target h hs
   rw [hsp] at hsp'
   simp only [Option.some.injEq] at hsp'
   subst hsp'
@@ -215,7 +215,7 @@ translation whose proof phase is `exec_proof` as written on `conv` returns a sta
 and — symbols named canonically — that history replays to three instruction lists whose encodings the serializer as written
 writes and `verify` of `lib.rs` as written accepts (journal: the images of the axioms and of the target). -/
 theorem translation_text_bytes_accepted_by_rust_text (mdb : MDb) (target : String)
-    (h : MM.ConvSpec.FragmentShape mdb target = true) :
+    (h : MM.ConvSpec.FragmentShape mdb target = true) (hs : MM.ConvSpec.sugarFree mdb = true) :
     ∃ sp, MM.ConvSpec.dbOfMDb mdb target = some sp ∧ sp.db.wf = true ∧
       (mmVerify sp.db sp.goal sp.labels sp.steps = true → ∀ cfg : Cfg, ∃ n, 5 ≤ n ∧
         ∀ fuel, ConvTie.dbFuel mdb ≤ fuel → ∃ conv,
@@ -223,7 +223,7 @@ theorem translation_text_bytes_accepted_by_rust_text (mdb : MDb) (target : Strin
           ∃ s calls, translateFullText sp.names.consts.idxOf fuel conv sp target cfg n = some (some (s, calls)) ∧
             s.claims = [] ∧
             (CanonCalls [] calls → ∃ g c p, TranslationBytesAccepted n sp.db sp.goal s calls g c p)) := by
-  obtain ⟨sp, hsp, hwf, htie⟩ := translation_full_text_is_the_model mdb target h
+  obtain ⟨sp, hsp, hwf, htie⟩ := translation_full_text_is_the_model mdb target h hs
   refine ⟨sp, hsp, hwf, fun hv cfg => ?_⟩
   obtain ⟨n0, s, calls, hex0, hfin⟩ := translation_succeeds cfg sp.db sp.goal sp.labels sp.steps hwf hv
   have hex : translateFull cfg (max n0 5) sp.db sp.goal sp.labels sp.steps = some (some (s, calls)) :=
@@ -238,7 +238,8 @@ theorem translation_text_bytes_accepted_by_rust_text (mdb : MDb) (target : Strin
 /-- **2 (any run of the text).**  Whatever the translation with `exec_proof` as written returns on a database of the shape
 (valid Metamath proof or not, fuel `≥ 5` / `≥ dbFuel`), with every claim discharged and canonical symbol names, is accepted
 by both checkers with the images of the database and of the target as journal. -/
-theorem translation_text_run_accepted (mdb : MDb) (target : String) (h : MM.ConvSpec.FragmentShape mdb target = true) :
+theorem translation_text_run_accepted (mdb : MDb) (target : String) (h : MM.ConvSpec.FragmentShape mdb target = true)
+    (hs : MM.ConvSpec.sugarFree mdb = true) :
     ∃ sp, MM.ConvSpec.dbOfMDb mdb target = some sp ∧
       ∀ fuel, ConvTie.dbFuel mdb ≤ fuel → ∃ conv,
         Gen.MMConv.MetamathConverter_init sp.names.consts.idxOf fuel default mdb = .ok conv ∧
@@ -246,7 +247,7 @@ theorem translation_text_run_accepted (mdb : MDb) (target : String) (h : MM.Conv
           translateFullText sp.names.consts.idxOf fuel conv sp target cfg n = some (some (s, calls)) →
           CanonCalls [] calls → s.claims = [] →
           ∃ g c p, TranslationBytesAccepted n sp.db sp.goal s calls g c p := by
-  obtain ⟨sp, hsp, hwf, htie⟩ := translation_full_text_is_the_model mdb target h
+  obtain ⟨sp, hsp, hwf, htie⟩ := translation_full_text_is_the_model mdb target h hs
   refine ⟨sp, hsp, fun fuel hfuel => ?_⟩
   obtain ⟨conv, hconv, hx⟩ := htie fuel hfuel
   refine ⟨conv, hconv, fun cfg n s calls hn hrun hcanon hfin => ?_⟩
@@ -256,14 +257,15 @@ theorem translation_text_run_accepted (mdb : MDb) (target : String) (h : MM.Conv
 /-- **3. text ⇒ validity**, through the bytes and `verify` of `lib.rs` as written: on a database of the shape whose proof
 the Metamath verifier accepts, and whose translation (proof phase as written, configuration `cfg`) names its symbols
 canonically, the image of the target is valid in every model of the images of the database's axioms. -/
-theorem translation_text_sound (mdb : MDb) (target : String) (h : MM.ConvSpec.FragmentShape mdb target = true) (cfg : Cfg) :
+theorem translation_text_sound (mdb : MDb) (target : String) (h : MM.ConvSpec.FragmentShape mdb target = true)
+    (hs : MM.ConvSpec.sugarFree mdb = true) (cfg : Cfg) :
     ∃ sp, MM.ConvSpec.dbOfMDb mdb target = some sp ∧
       (mmVerify sp.db sp.goal sp.labels sp.steps = true →
         (∀ (n fuel : Nat) (conv : ConvSup.ConvObj) (s : PySt) (calls : List Call),
           translateFullText sp.names.consts.idxOf fuel conv sp target cfg n = some (some (s, calls)) →
           CanonCalls [] calls) →
         ∀ 𝔐 : Model, (∀ a ∈ sp.db.axiomImages, ValidM 𝔐 a.expand) → ValidM 𝔐 (image sp.db sp.goal).expand) := by
-  obtain ⟨sp, hsp, _, hacc⟩ := translation_text_bytes_accepted_by_rust_text mdb target h
+  obtain ⟨sp, hsp, _, hacc⟩ := translation_text_bytes_accepted_by_rust_text mdb target h hs
   refine ⟨sp, hsp, fun hv hcanon 𝔐 hΓ => ?_⟩
   obtain ⟨n, _, hn⟩ := hacc hv cfg
   obtain ⟨conv, _, s, calls, hrun, _, hB⟩ := hn (ConvTie.dbFuel mdb) (Nat.le_refl _)
@@ -364,6 +366,7 @@ def db : MDb := [
   .prov "goal" [tc "|-", imp (.app "c" []) (imp (.app "c" []) (.app "c" []))] ["(", "c-is-pattern", "proof-rule-prop-1", ")", "AAB"]]
 
 theorem db_shape : FragmentShape db "goal" = true := by decide +kernel
+theorem db_sugarFree : sugarFree db = true := by decide +kernel
 
 /-- the Metamath verifier accepts the target's proof and the model run satisfies `runCheck`, on the specification of `mdb` -/
 def specCheck (mdb : MDb) (target : String) (N : Nat) : Bool :=
@@ -372,6 +375,41 @@ def specCheck (mdb : MDb) (target : String) (N : Nat) : Bool :=
   | none => false
 
 theorem db_check : specCheck db "goal" 40 = true := by decide +kernel
+
+/-- `ExampleCanon.db` with two DECLARED NOTATIONS, `( n x ) := ( f x ( \\imp x c ) )` and `m := ( n c )`, an axiom that uses them and the
+goal `|- ( \\imp m ( \\imp c m ) )` -/
+def dbN : MDb := [
+  .const ["f", "c", "#Pattern", "|-", "(", ")", "\\imp", "\\app", "#Notation", "n", "m"],
+  .var ["x", "y", "z"],
+  .float "y-is-pattern" "#Pattern" "y",
+  .float "z-is-pattern" "#Pattern" "z",
+  .float "x-is-pattern" "#Pattern" "x",
+  .ax "imp-is-pattern" [tc "#Pattern", imp (v "x") (v "y")],
+  .ax "app-is-pattern" [tc "#Pattern", .app "\\app" [v "y", v "x"]],
+  .ax "c-is-pattern" [tc "#Pattern", .app "c" []],
+  .ax "f-is-pattern" [tc "#Pattern", .app "f" [v "z", v "x"]],
+  .ax "n-is-pattern" [tc "#Pattern", .app "n" [v "x"]],
+  .ax "n-is-sugar" [tc "#Notation", .app "n" [v "x"], .app "f" [v "x", imp (v "x") (.app "c" [])]],
+  .ax "m-is-pattern" [tc "#Pattern", .app "m" []],
+  .ax "m-is-sugar" [tc "#Notation", .app "m" [], .app "n" [.app "c" []]],
+  .ax "proof-rule-prop-1" [tc "|-", imp (v "x") (imp (v "y") (v "x"))],
+  .ax "proof-rule-prop-2" [tc "|-", imp (imp (v "x") (imp (v "y") (v "z"))) (imp (imp (v "x") (v "y")) (imp (v "x") (v "z")))],
+  .block [.ess "proof-rule-mp.0" [tc "|-", imp (v "y") (v "x")], .ess "proof-rule-mp.1" [tc "|-", v "y"],
+          .ax "proof-rule-mp" [tc "|-", v "x"]],
+  .ax "ax0" [tc "|-", .app "f" [.app "c" [], .app "n" [.app "\\app" [v "x", .app "m" []]]]],
+  .prov "goal" [tc "|-", imp (.app "m" []) (imp (.app "c" []) (.app "m" []))] ["(", "m-is-pattern", "c-is-pattern", "proof-rule-prop-1", ")", "BAC"]]
+
+/-- the database with declared notations has the shape … -/
+theorem dbN_shape : FragmentShape dbN "goal" = true := by decide +kernel
+
+/-- … its specification exists, with the bodies at the constructors of `n` and `m`, the Metamath verifier accepts the proof, and the
+model's translation (`translateFull` on the specification: notations expanded by `image`) returns with every claim discharged, canonical
+symbol names and three wire byte strings (`runCheck`) — so `accepted_translation_bytes` applies to it -/
+theorem dbN_check : specCheck dbN "goal" 40 = true := by decide +kernel
+
+theorem dbN_bodies :
+    ((dbOfMDb dbN "goal").map (fun sp => sp.db.ctors.filterMap (·.body)) ==
+      some [MM.Term.con 0 [.var 0, .imp (.var 0) (.con 1 [])], MM.Term.con 9 [.con 1 []]]) = true := by decide +kernel
 
 open PFExample in
 /-- why `MM.ConvSpec.Example.db` is not used: its translation is not canonically named -/
@@ -397,7 +435,7 @@ theorem db_text_accepted :
         = some (sp.db.axiomImages.map NPat.expand, [(image sp.db sp.goal).expand]) ∧
       ∀ r0 : RustExec.RSt,
         (Gen.Rust.verify (gb.map UInt8.toNat) (cb.map UInt8.toNat) (pb.map UInt8.toNat) r0).isSome = true := by
-  obtain ⟨sp, hsp, hwf, htie⟩ := translation_full_text_is_the_model db "goal" db_shape
+  obtain ⟨sp, hsp, hwf, htie⟩ := translation_full_text_is_the_model db "goal" db_shape db_sugarFree
   obtain ⟨conv, hconv, hx⟩ := htie (ConvTie.dbFuel db) (Nat.le_refl _)
   have hchk := db_check
   simp only [specCheck, hsp, Bool.and_eq_true] at hchk
@@ -409,7 +447,7 @@ of the images of the database's axioms -/
 theorem db_text_sound :
     ∃ sp, dbOfMDb db "goal" = some sp ∧
       ∀ 𝔐 : Model, (∀ a ∈ sp.db.axiomImages, ValidM 𝔐 a.expand) → ValidM 𝔐 (image sp.db sp.goal).expand := by
-  obtain ⟨sp, hsp, hwf, _⟩ := translation_full_text_is_the_model db "goal" db_shape
+  obtain ⟨sp, hsp, hwf, _⟩ := translation_full_text_is_the_model db "goal" db_shape db_sugarFree
   have hchk := db_check
   simp only [specCheck, hsp, Bool.and_eq_true] at hchk
   obtain ⟨s, calls, hex, hcanon, hfin, _⟩ := runCheck_sound hchk.2
@@ -434,6 +472,8 @@ end C16
 #print axioms C16.exDB_sound
 #print axioms C16.ExampleCanon.db_shape
 #print axioms C16.ExampleCanon.db_check
+#print axioms C16.ExampleCanon.dbN_shape
+#print axioms C16.ExampleCanon.dbN_check
 #print axioms C16.ExampleCanon.example_db_not_canonical
 #print axioms C16.ExampleCanon.db_text_accepted
 #print axioms C16.ExampleCanon.db_text_sound
